@@ -39,7 +39,9 @@ def gen_config(rng, seg_p=0.5):
     cfg = {"ndim": ndim, "seg": with_seg, "T": rng.randint(3, 5)}
     if with_seg:
         cfg["shape"] = [5, 5] if ndim == 3 else [3, 3, 3]
-        cfg["scale"] = rng.choice([None, [1.0] * ndim, [1.0, 2.0, 0.5] if ndim == 3 else [1.0, 2.0, 1.0, 0.5]])
+        # anisotropic scales: one with voxel volume 1 and one with voxel volume != 1 (area != pixel count)
+        cfg["scale"] = rng.choice([None, [1.0] * ndim, [1.0, 2.0, 0.5] if ndim == 3 else [1.0, 2.0, 1.0, 0.5],
+                                   [1.0, 2.0, 0.25] if ndim == 3 else [1.0, 2.0, 1.0, 0.25], [1.0] + [0.5] * (ndim - 1)])
         extra = []
         if rng.random() < 0.5:
             extra.append("iou")
